@@ -11,6 +11,8 @@ C18.d  shifts whose amount is constant or locally bounded stay below the promote
 C18.e  [type] the byte storage behind every bit container has ceil(N/8) bytes for every N <= 255.
 C18.f  [summary] the task pool's slot indices stay inside its array (shares C10.a/c).
 C18.g  [bitprov] every bit-container operation addresses only storage the container owns (shares C20.e).
+C18.j  [type] the bits save()/load() write and read for a machine of N states fit the serial buffer of that machine, for every N (shares
+       the N-family obligations of C12.b).
 C18.i  [type] every per-task side array of the plan data has an element for every index the task pool can hand out; the pool has the
        configured capacity (witness capacities 1, 2, 8, 254 on three states).
 C18.h  [summary] the state ids the library itself feeds into single-index bit operations -- the wrappers' own compile-time ids, the
@@ -239,6 +241,12 @@ def run(run):
         facts.drop(F_)
     run.relabel('C20.e', 'C18.g')
     run.floor('C18.g', 1000)
+    # save()/load() stay inside the serial buffer for every state count: the bits written per machine size are at most the bits the buffer
+    # type owns (the type-level N-family obligations of C12.b -- a buffer sized one bit short at some N is an out-of-bounds access there)
+    from gen import nfamily as _nf
+    run.guard('report', _nf.report, run, run.tier, 'C12.b')
+    run.relabel('C12.b', 'C18.j')
+    run.floor('C18.j', 100)
     run.floor('C18.h', 10)
     run.explanation = (
         'Allocation-freedom from the AST (every new-expression is the reserved placement form into storage/_items, no delete, '
